@@ -36,7 +36,7 @@ declare -A DEST=( [C01-a]=tests/seed_demo.rs [C03-a]=tests/seed_c03_demo.rs [C05
  [C01-e]=tests/c01e_demo.rs [C05-e]=tests/c05_demo.rs [C09-e]=tests/c09_demo.rs [C12-e]=tests/c12e_demo.rs
  [C16-e]=crates/polytune-server-core/tests/c16_demo.rs [C19-e]=tests/seed_c19_demo.rs [C03-e]=tests/seed_c03e_demo.rs
  [C10-e]=MOD:src/mpc/seed_c10_demo.rs:src/mpc.rs:seed_c10_demo
- [C08-e]=tests/c08_demo.rs [C04-d]=tests/c04_kos_seed.rs [C02-e]=tests/seed_c02_demo.rs
+ [C08-e]=tests/c08_demo.rs [C04-d]=tests/c04_kos_seed.rs [C02-e]=tests/seed_c02_demo.rs [C11-e]=tests/c11_demo.rs
  [C20-a]=MOD:src/transpose/seed_demo.rs:src/transpose.rs:seed_demo )
 names=${@:-$(ls -d /verif/seeded/*/ | xargs -n1 basename)}
 for s in $names; do
